@@ -112,6 +112,18 @@ Eval(g, S, fuel, D) ==
          ELSE LET a == EvalSeq(FlatSeq(g[2]), S, fuel - 1, D)
                   b == Eval(g, S, fuel - 1, D)
               IN R(a.out \o b.out, a.cut \/ b.cut)
+    (* the query pipeline (src/query.rs, src/state/reification.rs): labelling of the query term,
+       ONE labelling of the remaining domain variables, reification *)
+    [] g[1] = "forceans" -> R(ForceAns(g[2], S), FALSE)
+    [] g[1] = "fdtail" ->
+         LET rest == ForceAns(ListOf(SetToSeq(DOMAIN S.ds)), S) IN
+         R(IF Len(rest) > 0 THEN <<rest[1]>> ELSE <<>>, FALSE)
+    [] g[1] = "reifyast" -> R(EnforceFd(g[2], S), FALSE)
+    [] g[1] = "query" ->
+         (* <<"query", qvars, body>>: what proto_vulcan_query! runs; V(0) is __query__ *)
+         LET qs == [i \in 1..Len(g[2]) |-> V(g[2][i])]
+             r == EvalSeq(<< <<"eq", V(0), ListOf(qs)>> >> \o ElabGs(g[3]), S, fuel, D)
+         IN R(FlatSeq([i \in 1..Len(r.out) |-> EnforceFd(V(0), r.out[i])]), r.cut)
     [] g[1] = "always" -> Eval(<<"loop", << << <<"succeed">> >> >> >>, S, fuel, D)
     [] g[1] = "never" -> R(<<>>, TRUE)
 
@@ -123,7 +135,10 @@ QueryAnswers(case, fuel) ==
       r == EvalSeq(ElabGs(case.body), InitK(0), fuel, D)
       labelled == FlatSeq([i \in 1..Len(r.out) |-> EnforceFd(ListOf(qs), r.out[i])])
   IN [answers |-> [i \in 1..Len(labelled) |-> Reify(labelled[i], qs)], cut |-> r.cut,
-      finals |-> labelled]
+      finals |-> labelled,
+      (* number of labelled answers per answer of the body: the answers of the body are reified one
+         after the other, the order INSIDE such a block is the labelling's own *)
+      blen |-> [i \in 1..Len(r.out) |-> Len(EnforceFd(ListOf(qs), r.out[i]))]]
 
 
 =============================================================================
